@@ -2,6 +2,9 @@ package main
 
 import (
 	"bytes"
+	"fmt"
+	"os"
+	"path/filepath"
 	"strings"
 	"time"
 
@@ -53,6 +56,20 @@ func c03Gen(r *RNG, id string, agg bool) *Case {
 		for len(seqs) < n {
 			seqs = append(seqs, mutateSeq(r, ref, sym17, 1, 4, true))
 		}
+	}
+	if !agg && c.Get("jit") == "" && r.Chance(1, 25) {
+		// rows of several hundred SNPs each, arriving out of order (jitter): whatever a writer does with a row's slice
+		// after it has parked the row must not matter
+		w := r.Range(400, 700)
+		ref = randSeq(r, w, symACGT, false)
+		n := r.Range(30, 60)
+		names = randNames(r, n, "")
+		seqs = nil
+		for i := 0; i < n; i++ {
+			seqs = append(seqs, mutateSeq(r, ref, symACGT, r.PickInt([]int{3, 9, 9}), 10, false))
+		}
+		c.SetInt("jit", 1+r.Intn(1000000))
+		c.Tag("wide-rows-jitter")
 	}
 	if !agg && r.Chance(1, 150) {
 		// one unwrapped line per sequence, longer than bufio.Scanner's default 64 KiB token
@@ -158,6 +175,31 @@ func runSnps(c *Case, agg bool) result {
 		err := snps.SNPs(strings.NewReader(refTxt), strings.NewReader(alnTxt), c.Get("hard") == "1", agg, thr, &out)
 		return out.String(), err
 	})
+}
+
+// runSnpsSlowPipe: `gofasta snps --aggregate` with its standard output on a pipe that is read late and slowly
+func runSnpsSlowPipe(c *Case) result {
+	if opts.gobin == "" {
+		return runSnps(c, true)
+	}
+	cliCounter++
+	dir := filepath.Join(opts.tmp, fmt.Sprintf("cli-%d-%d", os.Getpid(), cliCounter))
+	os.MkdirAll(dir, 0755)
+	defer os.RemoveAll(dir)
+	os.WriteFile(filepath.Join(dir, "r.fa"), []byte(renderFasta([]string{"ref"}, []string{c.Get("ref")}, layout{})), 0644)
+	os.WriteFile(filepath.Join(dir, "a.fa"), []byte(renderFasta(strings.Split(c.Get("names"), ","), strings.Split(c.Get("seqs"), ","), layout{})), 0644)
+	args := []string{"snps", "-r", filepath.Join(dir, "r.fa"), "-q", filepath.Join(dir, "a.fa"), "--aggregate"}
+	if c.Get("hard") == "1" {
+		args = append(args, "--hard-gaps")
+	}
+	o, code, to := runCLISlow(60*time.Second, 150*time.Millisecond, args...)
+	if to {
+		return result{status: "timeout"}
+	}
+	if code != 0 {
+		return result{status: "err:exit " + fmt.Sprint(code)}
+	}
+	return result{out: o, status: "ok"}
 }
 
 // snpsCLI: `gofasta snps -r r.fa -q a.fa [--hard-gaps] [--aggregate --threshold x]`
